@@ -4,7 +4,6 @@ package main
 
 import (
 	"context"
-	"encoding/json"
 	"fmt"
 	"sort"
 	"strings"
@@ -49,6 +48,7 @@ var c14Shapes = []c14Shape{
 	{name: "log-3", n: 3, query: `{} |= "m"`, params: logqlengine.EvalParams{Start: 0, End: otelstorage.Timestamp(10 * sec), Step: time.Second, Limit: -1}},
 	{name: "log-3-limit", n: 3, query: `{}`, params: logqlengine.EvalParams{Start: 0, End: otelstorage.Timestamp(10 * sec), Step: time.Second, Limit: 4}},
 	{name: "count-range-2", n: 2, query: `sum by (container) (count_over_time({}[2s]))`, params: logqlengine.EvalParams{Start: otelstorage.Timestamp(1 * sec), End: otelstorage.Timestamp(5 * sec), Step: 2 * time.Second, Limit: -1}},
+	{name: "count-range-1", n: 1, query: `count_over_time({}[1s])`, params: logqlengine.EvalParams{Start: otelstorage.Timestamp(1 * sec), End: otelstorage.Timestamp(6 * sec), Step: time.Second, Limit: -1}},
 	{name: "count-instant-3", n: 3, query: `count_over_time({}[5s])`, params: logqlengine.EvalParams{Start: otelstorage.Timestamp(4 * sec), End: otelstorage.Timestamp(4 * sec), Limit: -1}},
 	{name: "binop-2x1", n: 2, query: `sum(count_over_time({container="n0"}[5s])) + sum(count_over_time({container="n1"}[5s]))`, params: logqlengine.EvalParams{Start: otelstorage.Timestamp(4 * sec), End: otelstorage.Timestamp(4 * sec), Limit: -1}},
 	{name: "invalid-right-pattern", n: 2, invalid: true, query: `sum(count_over_time({}[3s])) + sum(count_over_time({} | pattern "<a><b>" [3s]))`, params: logqlengine.EvalParams{Start: otelstorage.Timestamp(4 * sec), End: otelstorage.Timestamp(4 * sec), Limit: -1}},
@@ -406,7 +406,7 @@ func nilIf(cond bool, p []int) []int {
 
 func c14Replay(r *vkit.Run, v vkit.Violation) *vkit.Violation {
 	var in c14Input
-	if err := json.Unmarshal(v.Input, &in); err != nil {
+	if err := vkit.DecodeInput(v, &in); err != nil {
 		r.HarnessError("bad input: %v", err)
 	}
 	return vkit.ReplayOne(r, func() {
